@@ -507,6 +507,12 @@ class Controller:
                     return_parameters=result,
                 )
             )
+        elif isinstance(result, hci.HCI_StatusReturnParameters):
+            # The handler of a command that is not answered with a Command Complete
+            # (the default handler for unimplemented and unknown commands, or a
+            # handler that only has a status to report): answer with a Command Status,
+            # a command must never be left unanswered.
+            self._send_hci_command_status(result.status, command.op_code)
         elif result is not None:
             logger.error("Async command handlers should return None, got %s", result)
 
